@@ -12,8 +12,12 @@ import (
 	nvidiav1 "github.com/NVIDIA/gpu-operator/api/nvidia/v1"
 	monitoringv1 "github.com/prometheus-operator/prometheus-operator/pkg/apis/monitoring/v1"
 	v1 "k8s.io/api/core/v1"
+	resourceapi "k8s.io/api/resource/v1"
+	schedulingv1 "k8s.io/api/scheduling/v1"
 	apiextensionsv1 "k8s.io/apiextensions-apiserver/pkg/apis/apiextensions/v1"
 	"k8s.io/apimachinery/pkg/runtime"
+	"k8s.io/apimachinery/pkg/util/managedfields"
+	clientgoapplyconfigurations "k8s.io/client-go/applyconfigurations"
 	utilruntime "k8s.io/apimachinery/pkg/util/runtime"
 	clientgoscheme "k8s.io/client-go/kubernetes/scheme"
 	"sigs.k8s.io/controller-runtime/pkg/client"
@@ -31,11 +35,15 @@ import (
 
 var ctx = context.Background()
 
-// statusScheme = what cmd/podgroupcontroller/app and cmd/queuecontroller/app register
-// (clientgoscheme + scheduling v2 + v2alpha2).
+// statusScheme: cmd/podgroupcontroller/app and cmd/queuecontroller/app register clientgoscheme +
+// scheduling v2 + v2alpha2. Only the groups the two reconcilers read or write are registered here
+// (core, scheduling.k8s.io, resource.k8s.io): the fake store rebuilds a REST mapper from the whole
+// scheme on every Patch, which with the ~50 groups of clientgoscheme costs 4 ms per reconcile.
 var statusScheme = func() *runtime.Scheme {
 	s := runtime.NewScheme()
-	utilruntime.Must(clientgoscheme.AddToScheme(s))
+	utilruntime.Must(v1.AddToScheme(s))
+	utilruntime.Must(schedulingv1.AddToScheme(s))
+	utilruntime.Must(resourceapi.AddToScheme(s))
 	utilruntime.Must(v2.AddToScheme(s))
 	utilruntime.Must(v2alpha2.AddToScheme(s))
 	return s
@@ -51,6 +59,15 @@ var operatorScheme = func() *runtime.Scheme {
 	utilruntime.Must(nvidiav1.AddToScheme(s))
 	utilruntime.Must(monitoringv1.AddToScheme(s))
 	return s
+}()
+
+// typeConverters: exactly the defaults fake.ClientBuilder.Build constructs when none are given
+// (client-go apply-configuration converter over the client-go scheme + deduced converter), built
+// once instead of once per Build (Build otherwise re-registers the whole client-go scheme: 2.5 ms).
+var typeConverters = func() []managedfields.TypeConverter {
+	s := runtime.NewScheme()
+	utilruntime.Must(clientgoscheme.AddToScheme(s))
+	return []managedfields.TypeConverter{clientgoapplyconfigurations.NewTypeConverter(s), managedfields.NewDeducedTypeConverter()}
 }()
 
 // callLog records every mutating client call of one execution ("verb kind[/sub] ns/name").
@@ -113,7 +130,7 @@ func countingFuncs(l *callLog) interceptor.Funcs {
 // PodGroupReconciler.SetupWithManager and QueueReconciler.SetupWithManager register.
 // raw is the un-intercepted client the environment (harness events) writes through.
 func newStatusClient(objs []client.Object, l *callLog) (counted client.Client, raw client.WithWatch) {
-	raw = fake.NewClientBuilder().WithScheme(statusScheme).
+	raw = fake.NewClientBuilder().WithScheme(statusScheme).WithTypeConverters(typeConverters...).
 		WithStatusSubresource(&v2alpha2.PodGroup{}, &v2.Queue{}, &v1.Pod{}).
 		WithIndex(&v1.Pod{}, cluster_relations.PodGroupToPodsIndexer, cluster_relations.PodGroupNameIndexerFunc).
 		WithIndex(&v2.Queue{}, qcommon.ParentQueueIndexName, qcontrollers.VerifIndexQueueByParent).
